@@ -151,7 +151,7 @@ class Ctx:
     # ---------------------------------------------------------------- TLC
     def tlc(self, module, cfg, workers=None, timeout=600, simulate=None, depth=None,
             coverage=False, deque=False, xss="64m", heap=None, label=None, collect=True,
-            extra_files=None, count=True, defs=None):
+            extra_files=None, count=True, defs=None, expect_violation=False):
         """Run TLC on specs/<module>.tla with the given cfg text.
         defs: {constant: TLA+ expression} for constants a cfg file cannot express (tuples, functions);
         a module <module>_MC extending <module> is generated and the constants are substituted."""
@@ -233,6 +233,9 @@ class Ctx:
         if re.search(r"Error: |Exception|StackOverflow|OutOfMemory", "\n".join(r.lines)) and r.violation is None and not r.post_false:
             raise Infra("TLC error on %s (%s):\n%s" % (module, label or "", text))
         r.ok = r.violation is None and not r.post_false
+        if not r.ok and not expect_violation:
+            # the specification breaks one of its own invariants / properties: nothing it emitted can be trusted
+            raise Infra("spec %s violates its own property (%s): %s\n%s" % (module, label or "", r.violation, text))
         if coverage:
             r.coverage_zero = [l for l in r.lines if re.search(r"^<\w+ line .*>: 0:0$", l.strip())]
         if count:
@@ -517,7 +520,7 @@ class Ctx:
     def validate_trace(self, module, cfg, trace_path, nlines, timeout=600, label=None, workers=1):
         """Validate an ndjson log against a trace spec. Returns (accepted, matched_prefix_len, result)."""
         r = self.tlc(module, cfg, workers=workers, timeout=timeout, deque=True, label=label or "trace",
-                     extra_files={"trace.ndjson": open(trace_path).read()}, collect=False, count=True)
+                     extra_files={"trace.ndjson": open(trace_path).read()}, collect=False, count=True, expect_violation=True)
         accepted = r.ok and r.violation is None
         return accepted, r.depth, r
 
